@@ -246,6 +246,9 @@ let run_case k (caseline : string) (lines : string list) =
   let prev_recv = ref (-1) in
   let last_new : query option ref = ref None in
   let in_cancel = ref false in
+  (* inertness monitor: what happened since the last synchronisation point *)
+  let sync_view : view option ref = ref None in
+  let seg_dirty = ref false and seg_other = ref 0 and seg_effects = ref 0 and clock_moved = ref false in
   let label = ref "nolabel" in
   let n_read = ref 0 and n_deliv = ref 0 and n_hit = ref 0 in
   let feats : (string, unit) Hashtbl.t = Hashtbl.create 8 in
@@ -295,6 +298,27 @@ let run_case k (caseline : string) (lines : string list) =
   (* ----- sync the model's send side with the implementation's dump ----- *)
   let find_mq id = List.find_opt (fun q -> iz q.q_qid = id) !st.ch_queries in
   let sync (v : view) =
+    (* monitor: a batch that consisted ONLY of parsed datagrams that are authentic for no live
+       query (judged on the implementation's own state) must leave no trace: no callback, no
+       server mark, no transmission, the same queries on the same connections with the same
+       counters.  Only judged when nothing else can have acted: no request, no cancel, and the
+       clock has not moved since the last processing call (so no time-out can fire). *)
+    (if (not !seg_dirty) && !seg_other = 0 && !seg_reads <> [] &&
+        List.for_all (fun r -> authentic_for cfg r.r_snap (zi r.r_sock) (zi r.r_src) r.r_pkt = None
+                               && authentic_for cfg r.r_now (zi r.r_sock) (zi r.r_src) r.r_pkt = None) !seg_reads then
+       match !sync_view with
+       | Some pv ->
+         let key q = (q.v_id, q.v_conn, q.v_tcp, q.v_try, q.v_ctry) in
+         if !seg_effects > 0 || List.map key pv.vqs <> List.map key v.vqs then begin
+           let r = List.hd (List.rev !seg_reads) in
+           let why = iz (reject_reason cfg r.r_snap (zi r.r_sock) (zi r.r_src) r.r_pkt) in
+           fail "forgery-not-inert" "datagram(s) %s read on s%d are authentic for no live query (%s) but had an effect: %d callback/mark/transmission line(s), query table %s"
+             (String.concat "," (List.rev_map (fun r -> string_of_int (iz r.r_pkt.p_tag)) !seg_reads)) r.r_sock
+             (match why with 1 -> "no live query with this id" | 2 -> "question differs" | 3 -> "query is assigned to another connection"
+                           | 4 -> "foreign source address" | 5 -> "QR bit clear" | 6 -> "cookie check" | _ -> "other")
+             !seg_effects (if List.map key pv.vqs <> List.map key v.vqs then "changed" else "unchanged")
+         end
+       | None -> ());
     (* unobservable predicted outputs may remain; anything else is a missing effect *)
     Queue.iter (fun o -> match o with
       | OCacheInsert _ | OConnError _ -> ()
@@ -421,6 +445,7 @@ let run_case k (caseline : string) (lines : string list) =
             ignore (apply (ESetCookie (zi vs.vs_idx, vck)) "ESetCookie")
           end) v.vss;
     seg_tx := []; seg_reads := []; marks_used := [];
+    sync_view := Some v; seg_dirty := false; seg_other := 0; seg_effects := 0;
     last_view := Some v; dirty := false;
     snap := !st in
   (* ----- datagrams read from sockets are fed to the model LAZILY, in log order -----
@@ -446,8 +471,8 @@ let run_case k (caseline : string) (lines : string list) =
                                                      | 6 -> "reject-cookie" | _ -> "reject-other"));
          if r = 3 then Hashtbl.replace feats "stale" ();
          if r = 6 then Hashtbl.replace feats "cookie" ()
-       | DMalformed _ -> bump "datagram-malformed"; Hashtbl.replace feats "malformed" ()
-       | DEmpty -> bump "datagram-empty");
+       | DMalformed _ -> incr seg_other; bump "datagram-malformed"; Hashtbl.replace feats "malformed" ()
+       | DEmpty -> incr seg_other; bump "datagram-empty");
       let outs = apply (ERead (zi sock, zi src, zi (now_sec ()), zi (now_usec ()), d)) (Printf.sprintf "ERead s%d" sock) in
       List.iter (fun o ->
           (match o with
@@ -526,6 +551,13 @@ let run_case k (caseline : string) (lines : string list) =
          | "QSTATE" :: _ -> ()
          | _ -> dirty := true);
         (match ws with "RECVFROM" :: s :: _ -> prev_recv := sock_idx s | _ -> prev_recv := -1);
+        (match ws with
+         | ("REQ" | "CANCEL" | "DESTROY" | "REINIT" | "SETSERVERS" | "CBOP") :: _ -> seg_dirty := true
+         | "NOW" :: _ -> clock_moved := true; seg_dirty := true
+         | "PROCEND" :: _ -> clock_moved := false
+         | "RECVFROM" :: _ -> if !clock_moved then seg_dirty := true
+         | ("CB" | "SERVERSTATE" | "TX") :: _ -> incr seg_effects
+         | _ -> ());
         match ws with
         | "OP" :: _ :: op -> cur_op := op;
           (match op with "note" :: l :: _ -> label := l | _ -> ())
